@@ -249,3 +249,56 @@ func AssertAuthorised(balances cstate.StateContextI, t *transaction.Transaction,
 	sym.Assert(sym.SumLe(fromSender, []uint64{uint64(t.Value)}), "a contract call debits its sender by at most the transaction value")
 	sym.Assert(len(balances.GetSignedTransfers()) == 0, "no signed transfer is queued by this contract function")
 }
+
+// ---- per-transaction overlays: what Chain.updateState does around every contract call ----
+
+// Ledger is a block-level trie on which transactions are applied one by one; a transaction's
+// writes reach it only when the call succeeded (the chain discards a failed call's changes).
+type Ledger struct {
+	Block *block.Block
+	Base  util.MerklePatriciaTrieI
+	bc    *statecache.BlockCache
+}
+
+func NewLedger(b *block.Block) *Ledger {
+	if b == nil {
+		b = &block.Block{}
+	}
+	l := &Ledger{Block: b}
+	l.bc = statecache.NewBlockCache(statecache.NewStateCache(), statecache.Block{Round: 1, Hash: "h1", PrevHash: "h0"})
+	if sym.Symbolic() {
+		l.Base = NewModelMPT()
+	} else {
+		l.Base = util.NewMerklePatriciaTrie(util.NewLevelNodeDB(util.NewMemoryNodeDB(), util.NewMemoryNodeDB(), false), 1, nil, statecache.NewTransactionCache(l.bc))
+	}
+	return l
+}
+
+// Begin opens a transaction overlay and returns its state context and trie.
+func (l *Ledger) Begin(txn *transaction.Transaction) (*cstate.StateContext, util.MerklePatriciaTrieI) {
+	tc := statecache.NewTransactionCache(l.bc)
+	var child util.MerklePatriciaTrieI
+	if m, ok := l.Base.(*ModelMPT); ok {
+		child = m.ChildWithCache(tc)
+	} else {
+		tdb := util.NewLevelNodeDB(util.NewMemoryNodeDB(), l.Base.GetNodeDB(), false)
+		child = util.NewMerklePatriciaTrie(tdb, l.Base.GetVersion(), l.Base.GetRoot(), tc)
+	}
+	b := l.Block
+	sc := cstate.NewStateContext(b, child, txn,
+		func(int64) *block.MagicBlock { return nil },
+		func() *block.Block { return b },
+		func() *block.MagicBlock { return nil },
+		func() encryption.SignatureScheme { return encryption.NewBLS0ChainScheme() },
+		func() *block.Block { return b },
+		nil)
+	return sc, child
+}
+
+// Commit merges a successful transaction's overlay into the block state (and its cache).
+func (l *Ledger) Commit(child util.MerklePatriciaTrieI) {
+	if err := l.Base.MergeMPTChanges(child); err != nil {
+		panic(err)
+	}
+	child.Cache().Commit()
+}
